@@ -185,6 +185,18 @@ def make_case(rng, key, props_list, mapped):
     parts = [{"name": "word/document.xml", "xml": el("w:document", [], [el("w:body", [], [el("w:p", [], runs)])])}]
     names = {"b": "b", "i": "i", "u": "u", "strike": "strike", "all-caps": "all-caps", "small-caps": "small-caps", "highlight": "highlight"}
     lines = []
+
+    def deco(tag):
+        """the mapped element sometimes carries a class or an attribute: values with white space + '#', brackets, `=>` - what a
+        pre-processor working on the raw line would cut or misread.  Written so that the source text of the element IS the label
+        the chain observations print for it (no quote or backslash in the value, at most one attribute besides the class)."""
+        if tag in ("", "!") or not tag.isalnum() or rng.random() < 0.6:
+            return tag
+        val = rng.choice(["color: #222", "border-bottom: 1px solid #000", "a #b", " # ", "#top", "x => y", "a]b", "p.q", "#"])
+        return tag + rng.choice([".c1", "[title='%s']" % val, "[style='%s']" % val, ".c1[data-x='%s']" % val])
+    mapped = dict(mapped)
+    for k, v in list(mapped.items()):
+        mapped[k] = [(color, deco(tag)) for color, tag in v] if k == "highlight-rules" else deco(v)
     for k, v in mapped.items():
         if k == "highlight-rules":
             lines.extend("highlight%s => %s" % ("" if color is None else "[color=%s]" % GS.print_string(color), tag) for color, tag in v)
@@ -237,7 +249,7 @@ def make_text_case(rng, key, props_list, mapped, texts):
     for r, t in zip(runs, texts):
         r[2][1] = el("w:t", [], [t])
     del case["props"]
-    case["meta"] = {"props": props_list, "mapped": mapped, "texts": texts}
+    case["meta"] = {"props": props_list, "mapped": case["mapped"], "texts": texts}      # the mapping as make_case wrote it
     return case
 
 
@@ -348,7 +360,7 @@ def make_children_case(rng, key, props_list, mapped):
             sm = case["options"].get("styleMap")
             case["options"]["styleMap"] = (sm + "\n" if sm else "") + "comment-reference => sup"
     del case["props"]
-    case["meta"] = {"props": props_list, "mapped": mapped, "extras": extras}
+    case["meta"] = {"props": props_list, "mapped": case["mapped"], "extras": extras}
     return case
 
 
